@@ -12,8 +12,11 @@ import sys, os, json, time, hashlib, subprocess, fcntl, re, glob, shutil, concur
 ROOT = os.path.dirname(os.path.dirname(os.path.abspath(__file__)))
 sys.path.insert(0, os.path.join(ROOT, 'tools'))
 CACHE = os.path.join(ROOT, '.cache')
-REPO = '/repo'
-ENV = dict(os.environ, CARGO_NET_OFFLINE='true', CARGO_TARGET_DIR=os.path.join(CACHE, 'target'))
+# overrides for experiments on a scratch copy of the repository (seeded defects): the registered commands never set them
+REPO = os.environ.get('VERIF_REPO', '/repo')
+HARNESS = os.environ.get('VERIF_HARNESS', os.path.join(ROOT, 'harness'))
+TARGET = os.environ.get('VERIF_TARGET', os.path.join(CACHE, 'target'))
+ENV = dict(os.environ, CARGO_NET_OFFLINE='true', CARGO_TARGET_DIR=TARGET)
 
 from props import PROPS, TRUSTED_BASE, ALLOWED_AXIOMS    # per-property configuration
 
@@ -153,7 +156,7 @@ def build_tools():
         problems = []
         t0 = time.time()
         for prof in ('', '--release'):
-            rc, out = sh('timeout 1500 cargo build --offline %s 2>&1' % prof, cwd=os.path.join(ROOT, 'harness'), timeout=1600)
+            rc, out = sh('timeout 1500 cargo build --offline %s 2>&1' % prof, cwd=HARNESS, timeout=1600)
             if rc != 0: problems.append('harness build failed (%s): %s' % (prof or 'debug', out[-1500:]))
         ml = os.path.join(ROOT, 'ocaml')
         binp = os.path.join(ROOT, 'bin', 'modelrun')
@@ -203,7 +206,7 @@ def run_job(job, rundir, variant='fixed'):
     name, prof, binary, args = job
     stream = os.path.join(rundir, name + '.stream')
     outp = os.path.join(rundir, name + '.model')
-    exe = os.path.join(CACHE, 'target', prof, binary)
+    exe = os.path.join(TARGET, prof, binary)
     class _R: pass
     with open(stream, 'w') as f:
         try:
@@ -243,7 +246,7 @@ def parse_model_output(path):
 
 def corr_key(tier, seed):
     srcs = files_under(os.path.join(REPO, 'src'), ('.rs',)) + [os.path.join(REPO, 'Cargo.toml')]
-    srcs += files_under(os.path.join(ROOT, 'harness', 'src'), ('.rs',)) + [os.path.join(ROOT, 'harness', 'Cargo.toml')]
+    srcs += files_under(os.path.join(HARNESS, 'src'), ('.rs',)) + [os.path.join(HARNESS, 'Cargo.toml')]
     srcs += [os.path.join(ROOT, 'ocaml', 'driver.ml')] + files_under(os.path.join(ROOT, 'coq'), ('.v',))
     srcs += glob.glob(os.path.join(ROOT, 'corpus', '*.trace')) + [os.path.join(ROOT, 'tools', 'check.py')]
     return '%s-%s-%s' % (tier, seed, sha_files(srcs))
